@@ -58,11 +58,11 @@ func (t tagset) String() string {
 }
 
 type provSummary struct {
-	writes  []bool   // writes memory reachable from parameter j
-	ret     []tagset // provenance of results, relative to parameters
-	envMis  []bool   // uses parameter j in a way forbidden for Env (Set / assertion to WriteEnviron)
-	done    bool
-	stores  []bool // stores parameter j into longer-lived memory (not used for obligations; informational)
+	writes []bool   // writes memory reachable from parameter j
+	ret    []tagset // provenance of results, relative to parameters
+	envMis []bool   // uses parameter j in a way forbidden for Env (Set / assertion to WriteEnviron)
+	done   bool
+	stores []bool // stores parameter j into longer-lived memory (not used for obligations; informational)
 }
 
 type writeSite struct {
@@ -74,14 +74,14 @@ type writeSite struct {
 }
 
 type provAnalysis struct {
-	P         *Program
-	sums      map[*ssa.Function]*provSummary
-	sites     map[string]*writeSite // by obligation name (latest iteration)
-	analysed  map[string]bool       // package paths whose functions get obligations
-	changed   bool
-	collect   bool
-	occ       map[string]int
-	envSites  []*writeSite
+	P        *Program
+	sums     map[*ssa.Function]*provSummary
+	sites    map[string]*writeSite // by obligation name (latest iteration)
+	analysed map[string]bool       // package paths whose functions get obligations
+	changed  bool
+	collect  bool
+	occ      map[string]int
+	envSites []*writeSite
 	// closures: captured variables are summarised flow-insensitively in cells shared by parent and closures
 	fvBinding map[*ssa.FreeVar]ssa.Value
 	captured  map[*ssa.Alloc]bool
@@ -205,7 +205,7 @@ func newProvAnalysis(P *Program) *provAnalysis {
 		analysed: map[string]bool{pkgInterp: true, pkgExpand: true, pkgInternal: true}, occ: map[string]int{},
 		fvBinding: map[*ssa.FreeVar]ssa.Value{}, captured: map[*ssa.Alloc]bool{}, cell: map[memKey]tagset{},
 		runnerMut: map[string]string{},
-		cbArgs: map[*ssa.Function][]tagset{}, cbKnown: map[*ssa.Function]bool{}, yieldArgs: map[*ssa.Function]map[int][]tagset{}}
+		cbArgs:    map[*ssa.Function][]tagset{}, cbKnown: map[*ssa.Function]bool{}, yieldArgs: map[*ssa.Function]map[int][]tagset{}}
 }
 
 func (pa *provAnalysis) inScope(f *ssa.Function) bool {
@@ -511,9 +511,9 @@ func fileSrcCached(name string) []byte {
 
 // knownExternal models standard-library functions by name.
 type extModel struct {
-	fresh    bool // result is freshly allocated
-	sameAs0  bool // result may alias argument 0
-	writes0  bool // writes through argument 0
+	fresh   bool // result is freshly allocated
+	sameAs0 bool // result may alias argument 0
+	writes0 bool // writes through argument 0
 }
 
 var extModels = map[string]extModel{
@@ -647,7 +647,7 @@ func (fp *funcProv) loadNonLocal(addr ssa.Value, resT types.Type) tagset {
 		if base&tA != 0 && spkg == syntaxPkg {
 			return tA
 		}
-		return tU | (base & (tP0*((1<<maxParams)-1)))
+		return tU | (base & (tP0 * ((1 << maxParams) - 1)))
 	case *ssa.IndexAddr:
 		if d := typeDefault(resT); d != 0 {
 			return d
@@ -1221,7 +1221,6 @@ func (pa *provAnalysis) solve() []*ssa.Function {
 	return fns
 }
 
-
 func (pa *provAnalysis) resolveFreeVar(fv *ssa.FreeVar) *ssa.Alloc {
 	for i := 0; i < 8; i++ {
 		b, ok := pa.fvBinding[fv]
@@ -1487,7 +1486,6 @@ func (pa *provAnalysis) addYieldArgs(c cbParam, args []tagset) {
 	}
 	m[c.idx] = cur
 }
-
 
 // subshellObligations: every Runner field whose container is mutated in place somewhere in the package must be
 // fresh (or zero) in the Runner returned by subshell, so that the subshell cannot write the parent's state.
